@@ -257,6 +257,7 @@ def text_cases(ctx):
     rng = ctx.rng
     for s in ['# HELP \x1c x\n', '# TYPE \xa0 gauge\n', 'a 1 1' + '0' * 400 + '\n', 'a{b="c"}\n', 'a{', '}x{ 1', 'a{}} 1',
               '{} 1', '{"a"} 1', 'a{,} 1', 'a{,,} 1', 'a{b="c",} 1', 'a{b=} 1', 'a{="c"} 1', '# TYPE a\n', '# TYPE a b c d\n',
+              'a 1 ' + '1' * 60 + '_\n', 'a ' + '9' * 60 + 'x 1\n', 'a{b="c"} ' + '1.' * 30 + 'e 5\n', 'a{' + 'l="v",' * 40 + '"} 1\n',
               '# HELP\n', '#\n', '# TYPE _total counter\n_total 1\n', '# TYPE a_total counter\na_total 1\n', 'a{b="\\"} 1']:
         yield dict(fmt='text', text=s, origin='seed')
     # unstructured: exhaustive to length L over the special alphabet
